@@ -104,6 +104,13 @@ class C16(Prop):
                 add(3, b''.join(tup), 'uri-pieces')
         for _ in range(2000 if tier == 'quick' else 100000):
             add(3, b''.join(rng.choice(pieces) for _ in range(rng.randint(4, 7))), 'uri-pieces-random')
+        # white-space characters other than SP are part of the token: nothing is trimmed
+        wsp = [b'\t', b'\x0b', b'\x0c', b'\r', b'\n', b'\xc2\x85', b'\xc2\xa0', b'\xe2\x80\x83', b'\xe3\x80\x80', b' ']
+        for w in wsp:
+            for core in (b'/home', b'http://a/b', b'a', b'', b'/'):
+                add(3, w + core, 'uri-white-space')
+                add(3, core + w, 'uri-white-space')
+                add(3, w + core + w, 'uri-white-space')
         for u in [b'http://', b'http:///', b'http://a', b'http://a/', b'/', b'//', b'*', b'\xff', b'http://\xff/', b'/\xff',
                   b'http://a/\xc3\xa9', b'\xc3\xa9/', b'http://\xc3\xa9/\xc3\xa9']:
             add(3, u, 'uri-edge')
